@@ -2,5 +2,6 @@
 package engines
 
 import (
+	_ "verif/engines/coordpure"
 	_ "verif/engines/walmodel"
 )
